@@ -244,6 +244,15 @@ def worker(shard, part):
         part.sample(_CASES[lo])
 
 
+def _describe(shard):
+    lo, hi, plo, phi = shard
+    c = _CASES[lo]
+    return "%d case(s) %s %s" % (hi - lo, (plo, phi), {k: (v if not isinstance(v, (list, tuple)) or len(v) < 6 else "[%d]" % len(v)) for k, v in c.items()})
+
+
+worker.describe = _describe
+
+
 _BRUTE = [300]
 
 
